@@ -105,6 +105,22 @@ def fill_part(a, i, c):
             fl[:] = c
 
 
+def res_differs(a, b):
+    """advertised results: 1e-9 relative (+1e-13) on values recomputed from re-assembled operators"""
+    if isinstance(a, str) or isinstance(b, str) or a is None or b is None:
+        return a is not b and a != b
+    a, b = np.asarray(a, dtype=float), np.asarray(b, dtype=float)
+    if a.shape != b.shape:
+        return True
+    if a.size == 0:
+        return False
+    with np.errstate(invalid="ignore"):
+        d = np.abs(a - b)
+    if np.isnan(a).any() or np.isnan(b).any():
+        return not np.array_equal(np.isnan(a), np.isnan(b)) or bool(np.nanmax(np.where(np.isnan(d), 0.0, d)) > 1e-9 * max(float(np.nanmax(np.abs(b))), 0.0) + 1e-13)
+    return bool(d.max() > 1e-9 * float(np.abs(b).max()) + 1e-13)
+
+
 def filled_like(a, c):
     b = deep(a)
     fill(b, c)
@@ -213,6 +229,37 @@ class Adapter:
     def entry_fields(self, res):
         # a key that is missing from the iteration dict is observed as "absent" (never equal to a saved array)
         return [res.get(k) for k in self.keys]
+
+    skip_results = ()      # advertised results whose evaluation is itself a state change (documented per class)
+
+    def all_results(self, simu):
+        """every result the class advertises (Results_Available), node values and element values"""
+        out = {}
+        for nm in simu.Results_Available():
+            if nm in self.skip_results:
+                continue
+            for nv in (True, False):
+                try:
+                    v = simu.Result(nm, nodeValues=nv)
+                    out["%s|%s" % (nm, "n" if nv else "e")] = None if v is None else (float(v) if np.ndim(v) == 0 else np.array(v, dtype=float, copy=True))
+                except Exception as ex:   # some advertised names are not implemented: must at least behave the same later
+                    out["%s|%s" % (nm, "n" if nv else "e")] = "EXC:" + type(ex).__name__
+        return out
+
+    def warm(self, simu):
+        """what post-processing does before looking at an older iteration: assembled matrices of every
+        problem and the scalar (energy) results of the CURRENT state -> caches are up to date"""
+        for pt in simu.Get_problemTypes():
+            simu.Get_K_C_M_F(pt)
+        for nm in simu.Results_Available():
+            if nm in self.skip_results:
+                continue
+            try:
+                v = simu.Result(nm)
+            except Exception:
+                continue
+            if v is not None and np.ndim(v) != 0:
+                continue
 
     def internal(self, simu):
         """committed internal variables that are not live fields (name -> array/dict), compared with the
@@ -360,10 +407,14 @@ class PhaseField(Adapter):
     name = "PhaseField"
     keys = ["damage", "displacement"]
     results = ["damage", "displacement"]
+    pf_solver = None
+    # Result("psiP") recomputes AND rebinds the trial history field (__psiP_e_pg): a state-changing read
+    skip_results = ("psiP",)
 
     def build(self, folder):
         mat = Models.Elastic.Isotropic(2, E=210000.0, v=0.3, planeStress=True, thickness=1.0)
-        pfm = Models.PhaseField(mat, "Miehe", "AT2", 2.7, 0.4)
+        kw = {} if self.pf_solver is None else {"solver": getattr(Models.PhaseField.SolverType, self.pf_solver)}
+        pfm = Models.PhaseField(mat, "Miehe", "AT2", 2.7, 0.4, **kw)
         simu = Simulations.PhaseField(self.new_mesh(), pfm, folder=folder, verbosity=False)
         return simu
 
@@ -379,6 +430,13 @@ class PhaseField(Adapter):
         super().solve(simu, n)
         # as every phase-field script does after a solve (Save() needs it, see probe phasefield_save)
         simu.Results_Set_Iteration_Summary(n, 2e-3 * (n + 1), "m")
+
+
+class PhaseFieldHD(PhaseField):
+    """HistoryDamage solver: the damage field itself is the only memory, so a restart from a restored
+    iteration must reproduce the original continuation"""
+    name = "PhaseField_HistoryDamage"
+    pf_solver = "HistoryDamage"
 
 
 class HyperElastic(Adapter):
@@ -522,7 +580,7 @@ class WeakFormsDyn(WeakFormsParabolic):
         simu.add_neumann(nL, [1.0 * (n + 1)], ["u"])
 
 
-ADAPTERS = {a.name: a for a in (BeamDyn, WeakFormsParabolic, WeakFormsDyn, ElasticStatic, ElasticDyn, ThermalStatic, ThermalParabolic, Beam, PhaseField,
+ADAPTERS = {a.name: a for a in (PhaseFieldHD, BeamDyn, WeakFormsParabolic, WeakFormsDyn, ElasticStatic, ElasticDyn, ThermalStatic, ThermalParabolic, Beam, PhaseField,
                                 HyperElastic, HyperElasticDyn, InElastic, WeakFormsStatic)}
 
 
@@ -564,6 +622,8 @@ class Run:
         self.last_store = {}
         self.corrupt = {}
         self.loaded = False
+        self.warm_since_solve = False
+        self.nresults = 0
         self.mesh_id = 0        # the harness's own count of mesh assignments (index of the current mesh in the history)
         self.cur_mesh = 0
         self.load_of = {}       # first token of a Solve -> load counter used (a Solve re-using tokens replays that load)
@@ -611,6 +671,14 @@ class Run:
             bade = [nm for nm in self.ad.elem_results if sha(s.Result(nm, nodeValues=False)) != sha(g[6][nm])]
             if bade:
                 self.fail("element-results", step, {"iter": i, "via": via, "results": bade, "after_load_simu": self.loaded})
+        if g[7] is not None and not bad:
+            now = self.ad.all_results(s)
+            badr = sorted(k for k in g[7] if k not in now or res_differs(now[k], g[7][k]))
+            if badr:
+                def fmt(v):
+                    return v if isinstance(v, (str, float)) or v is None else "array max|.|=%.6g" % float(np.nanmax(np.abs(v))) if np.size(v) else "empty"
+                self.fail("result-iter-differs", step, {"iter": i, "via": via, "results": badr[:8], "n_results_compared": len(g[7]), "warm": self.warm_since_solve,
+                                                        "now": fmt(now.get(badr[0])), "at_save_time": fmt(g[7][badr[0]])})
         if int(s._Simu__indexMesh) != g[0] or mesh_sig(s.mesh) != g[1]:
             self.fail("restore-mesh", step, {"iter": i, "via": via, "indexMesh": int(s._Simu__indexMesh), "expected": g[0]})
 
@@ -654,7 +722,7 @@ class Run:
                         d = float(np.max(np.abs(a - ref))) if np.shape(a) == np.shape(ref) else float("inf")
                         sc = max(float(np.max(np.abs(ref))), 1e-300)
                     if d > 1e-9 * sc + 1e-13:
-                        self.fail("continuation-differs", n, {"field": ad.keys[k], "max_abs_diff": d, "scale": sc})
+                        self.fail("continuation-differs", n, {"field": ad.keys[k], "max_abs_diff": d, "scale": sc, "warm": self.warm_since_solve})
                     self.reg.setdefault(str(t), []).append(parts(a)["sha"])   # a replay may differ in the last bits
             else:
                 ad.solve(s, (self.nsolve + self.load_shift) % 7)
@@ -671,10 +739,17 @@ class Run:
             for rname in ad.results:
                 resv.append(None if rname is None else deep(s.Result(rname)))
             self.ghost.append((self.cur_mesh, mesh_sig(s.mesh), live, resv, {k: deep(v) for k, v in ad.internal(s).items()},
-                               group_order(s.mesh), {nm: deep(s.Result(nm, nodeValues=False)) for nm in ad.elem_results}))
+                               group_order(s.mesh), {nm: deep(s.Result(nm, nodeValues=False)) for nm in ad.elem_results},
+                               ad.all_results(s) if self.case.get("allresults") else None))
             if ad.time_dependent and len(live) > 1 and all(not iszero(x) for x in live[1:]):
                 self.rates_nonzero += 1
             self.check_store_vs_ghost(n, "SaveIter")
+        elif name == "Warm":
+            before = self.obs()
+            ad.warm(s)
+            self.warm_since_solve = True
+            if self.obs() != before:
+                self.fail("result-query-impure", n, {"what": "Get_K_C_M_F / scalar Result() of the current state changed live fields, mesh or store"})
         elif name == "SetFolder":
             s.folder = self.folder(op[1])
             self.check_store_vs_ghost(n, "SetFolder")
@@ -795,6 +870,7 @@ class Run:
                 break
         out = {"id": self.case["id"], "sim": self.case["sim"], "fails": self.fails, "events": self.events, "error": err,
                "reg": self.reg, "nfields": len(self.ad.keys), "rates_nonzero": self.rates_nonzero,
+               "n_results_recorded": max([len(g[7]) for g in self.ghost if g[7] is not None] + [0]),
                "algo": (str(self.simu.algo.value) if hasattr(self.simu.algo, "value") else str(self.simu.algo))}
         if err is None:
             with contextlib.redirect_stdout(io.StringIO()):
